@@ -3,6 +3,222 @@ open Lean (Json)
 namespace FtDriver
 open Ft
 
-def handleC08 (_j : Json) : Except String Verdict := throw "C08: not implemented"
+/-! C08 — splits.  Case fields: op ("uniform" | "nonuniform" | "equal" | "unequal" | "truediv" |
+    "floordiv"), d (payload depth below the split fiber), k (split depth 0..2), dflt, t (tree of
+    depth d+1+k), step / splits / sizes / n, pre, post, rel, act ([as, ae] or null), shape
+    (observed, for truediv), re (optional second split applied one level down, k = 0 only),
+    impl ({"err": cls} or {"tree", "uact", "lact", "lact2"}). -/
+
+structure C08Split where
+  op : SplitOp
+  pre : Int
+  post : Int
+  rel : Bool
+
+def jPair (a b : Int) : Json := jInts [a, b]
+
+def fBoolD (j : Json) (k : String) (d : Bool) : Bool :=
+  match j.getObjVal? k with
+  | .ok v => (v.getBool?).toOption.getD d
+  | _ => d
+
+def ascending : List Int → Bool
+  | [] => true
+  | [_] => true
+  | a :: b :: r => decide (a < b) && ascending (b :: r)
+
+def parseSplit (j : Json) (shape : Int) (occ : Nat) : Except String C08Split := do
+  let op ← fStr j "op"
+  let pre := fIntD j "pre" 0
+  let post := fIntD j "post" 0
+  let rel := fBoolD j "rel" false
+  let o ← match op with
+    | "uniform" => do pure (SplitOp.uniform (← fInt j "step"))
+    | "nonuniform" => do pure (SplitOp.nonuniform (← asInts (← field j "splits")))
+    | "equal" => do pure (SplitOp.equal (← fInt j "step"))
+    | "unequal" => do pure (SplitOp.unequal (← asInts (← field j "sizes")))
+    | "truediv" => do pure (SplitOp.uniform (truedivStep shape (← fInt j "n")))
+    | "floordiv" => do pure (SplitOp.equal (floordivStep occ (← fInt j "n")))
+    | s => throw s!"C08: unknown op {s}"
+  pure { op := o, pre, post, rel }
+
+/-- the domain of the model / theorems: positive steps, ascending boundaries, positive sizes,
+    non-negative halos -/
+def C08Split.ok (s : C08Split) : Bool :=
+  decide (0 ≤ s.pre) && decide (0 ≤ s.post) &&
+  (match s.op with
+   | .uniform st => decide (1 ≤ st)
+   | .equal st => decide (1 ≤ st)
+   | .nonuniform S => ascending S
+   | .unequal sz => sz.all (fun x => decide (1 ≤ x)))
+
+def opTag : SplitOp → String
+  | .uniform _ => "uniform" | .nonuniform _ => "nonuniform" | .equal _ => "equal" | .unequal _ => "unequal"
+
+/-- one split function on a fiber: `none` = the implementation raises -/
+abbrev SplitF (d : Nat) := T (d + 1) → Option (List (Part (T d)))
+
+def modelF (s : C08Split) (act : Option (Int × Int)) (dflt : Int) (d : Nat) : SplitF d :=
+  splitFiberParts { op := s.op, pre := s.pre, post := s.post, rel := s.rel, act := act } dflt d
+
+/-- the declarative result (never raises) -/
+def specF (s : C08Split) (act : Option (Int × Int)) (dflt : Int) (d : Nat) : SplitF d := fun f =>
+  let a := effActive act (show List (Int × T d) from f)
+  some (specIter s.op s.pre s.post a.1 a.2 s.rel (present dflt d f))
+
+/-- position-space reading of equal / unequal for halo 0 (`none`: not applicable) -/
+def chunkF (s : C08Split) (act : Option (Int × Int)) (dflt : Int) (d : Nat) : SplitF d := fun f =>
+  let a := effActive act (show List (Int × T d) from f)
+  if s.pre = 0 ∧ s.post = 0 then chunkSpec s.op a.1 a.2 s.rel (present dflt d f) else none
+
+structure Obs where
+  tree : Json
+  uact : List Json
+  lact : List Json
+  lact2 : List Json := []
+
+def partsJson (d : Nat) (ps : List (Part (T d))) : Json :=
+  jList (ps.map (fun p => jList [jInt p.start, treeToJson (d + 1) (show T (d + 1) from p.elems)]))
+
+def actsJson {π : Type} (ps : List (Part π)) : Json := jList (ps.map (fun p => jPair p.lo p.hi))
+
+/-- the observation of a single split applied at depth `k` -/
+def obsAt (act : Option (Int × Int)) (d : Nat) (F : SplitF d) : (k : Nat) → T (d + 1 + k) → Option Obs
+  | 0, f => do
+    let ps ← F f
+    let a := effActive act (show List (Int × T d) from f)
+    pure { tree := partsJson d ps, uact := [jPair a.1 a.2], lact := [actsJson ps] }
+  | k + 1, f => do
+    let rs ← mapM? (fun e => (obsAt act d F k e.2).map (fun o => (e.1, o)))
+                (show List (Int × T (d + 1 + k)) from f)
+    pure { tree := jList (rs.map (fun r => jList [jInt r.1, r.2.tree])),
+           uact := rs.flatMap (·.2.uact), lact := rs.flatMap (·.2.lact) }
+
+/-- a split at depth 0 followed by a second split of every partition (its own active range) -/
+def obsRe (act : Option (Int × Int)) (d : Nat) (F : SplitF d)
+    (G : Part (T d) → Option (List (Part (T d)))) (f : T (d + 1)) : Option Obs := do
+  let ps ← F f
+  let qs ← mapM? (fun p => (G p).map (fun q => (p, q))) ps
+  let a := effActive act (show List (Int × T d) from f)
+  pure { tree := jList (qs.map (fun pq => jList [jInt pq.1.start, partsJson d pq.2])),
+         uact := [jPair a.1 a.2], lact := [actsJson ps],
+         lact2 := [jList (qs.map (fun pq => actsJson pq.2))] }
+
+def Obs.toJson (o : Obs) (re : Bool) : Json :=
+  Json.mkObj ([("tree", o.tree), ("uact", jList o.uact), ("lact", jList o.lact)] ++
+    (if re then [("lact2", jList o.lact2)] else []))
+
+def errJson : Json := Json.mkObj [("err", Json.str "ERR:ValueError")]
+
+/-- number of stored elements of every fiber at depth `k` and whether some presented element exists /
+    the active range is non-empty wherever something is presented -/
+def domAt (act : Option (Int × Int)) (dflt : Int) (d : Nat) : (k : Nat) → T (d + 1 + k) → Bool
+  | 0, f =>
+    let a := effActive act (show List (Int × T d) from f)
+    decide (a.1 < a.2) || (present dflt d f).isEmpty
+  | k + 1, f => (show List (Int × T (d + 1 + k)) from f).all (fun e => domAt act dflt d k e.2)
+
+def presentedAt (dflt : Int) (d : Nat) : (k : Nat) → T (d + 1 + k) → Nat
+  | 0, f => (present dflt d f).length
+  | k + 1, f => ((show List (Int × T (d + 1 + k)) from f).map (fun e => presentedAt dflt d k e.2)).sum
+
+def getAct (j : Json) : Option (Int × Int) :=
+  match j.getObjVal? "act" with
+  | .ok v => match asInts v with
+    | .ok [a, b] => some (a, b)
+    | _ => none
+  | _ => none
+
+/-- tags naming the branches of the splitters that a (depth-0) case exercises -/
+def branchTags (s : C08Split) (a : Int × Int) (elems : Fib Int (T d)) (res : Option (List (Part (T d)))) :
+    List String :=
+  let cs := elems.map (·.1)
+  [opTag s.op] ++
+  (if s.pre > 0 then ["pre"] else []) ++ (if s.post > 0 then ["post"] else []) ++
+  (if s.rel then ["rel"] else []) ++
+  (if cs.any (fun c => c < a.1 - s.pre) then ["skip-before"] else []) ++
+  (if cs.any (fun c => c ≥ a.2 + s.post) then ["break-after"] else []) ++
+  (if cs.any (fun c => (a.1 - s.pre ≤ c && c < a.1) || (a.2 ≤ c && c < a.2 + s.post)) then ["in-halo-of-active"] else []) ++
+  (match res with
+   | none => ["crash-op:" ++ opTag s.op]
+   | some ps =>
+     (if ps.length ≥ 2 then ["multi"] else []) ++
+     (if ps.any (fun p => decide (p.lo ≠ p.start) || (match s.op with | .uniform st => decide (p.hi ≠ p.start + st) | _ => false)) then ["clipped"] else []) ++
+     (if (ps.map (fun p => p.elems.length)).sum > (elems.filter (fun e => inWindow a.1 a.2 s.pre s.post e.1)).length then ["shared"] else []) ++
+     (if (ps.map (fun p => p.elems.length)).sum < elems.length then ["dropped"] else []))
+
+def handleC08 (j : Json) : Except String Verdict := do
+  let d ← fNat j "d"
+  let k ← fNat j "k"
+  let dflt := fIntD j "dflt" 0
+  let act := getAct j
+  let impl ← field j "impl"
+  let shape := fIntD j "shape" 0
+  let reJ := (j.getObjVal? "re").toOption.filter (fun v => !v.isNull)
+  -- the rest depends on the (literal) split depth because the tree type does
+  let finish (pre : Bool) (model : Option Obs) (spec : Option Obs) (chunk : Bool)
+      (tags : List String) : Except String Verdict := do
+    if !pre then return { agree := true, spec := true, tags := ["OUT_OF_MODEL"] }
+    let re := reJ.isSome
+    let mj := match model with | some o => o.toJson re | none => errJson
+    let sj := match spec with | some o => o.toJson re | none => errJson
+    let specOk := impl == sj && chunk
+    let why := if impl == sj then (if chunk then "" else "chunks") else s!"expected {sj.compress}"
+    let agree := impl == mj
+    let crash := if model.isNone then ["crash:min-empty"] else []
+    pure { agree, spec := specOk, model := mj, tags := tags ++ crash, why }
+  match k with
+  | 0 =>
+    let t ← fTree j "t" (d + 1)
+    let occ := (show List (Int × T d) from t).length
+    let s ← parseSplit j shape occ
+    let a := effActive act (show List (Int × T d) from t)
+    -- (`/` and `//` of an empty fiber compute step 0; nothing is iterated then)
+    let pre := wfB (d + 1) t && (s.ok || occ == 0) && domAt act dflt d 0 t
+    match reJ with
+    | none =>
+      let m := modelF s act dflt d t
+      let tags := branchTags s a (present dflt d t) m
+      let chunk := match obsAt act d (chunkF s act dflt d) 0 t with
+        | some o => impl == o.toJson false
+        | none => true
+      finish pre (obsAt act d (modelF s act dflt d) 0 t) (obsAt act d (specF s act dflt d) 0 t) chunk tags
+    | some rj =>
+      let s2 ← parseSplit rj 0 0
+      let G (F2 : C08Split → Bool) : Part (T d) → Option (List (Part (T d))) := fun p =>
+        if F2 s2 then splitIter s2.op s2.pre s2.post p.lo p.hi s2.rel p.elems
+        else some (specIter s2.op s2.pre s2.post p.lo p.hi s2.rel p.elems)
+      let m := obsRe act d (modelF s act dflt d) (G (fun _ => true)) t
+      let sp := obsRe act d (specF s act dflt d) (G (fun _ => false)) t
+      let crashOp := match modelF s act dflt d t with
+        | none => ["crash-op:" ++ opTag s.op]
+        | some _ => if m.isNone then ["crash-op:" ++ opTag s2.op] else []
+      finish (pre && s2.ok) m sp true (["resplit", opTag s.op ++ ">" ++ opTag s2.op] ++
+        (if s.rel then ["rel-then-resplit"] else []) ++ crashOp)
+  | 1 =>
+    let t ← fTree j "t" (d + 2)
+    let s ← parseSplit j shape 0
+    let pre := wfB (d + 2) t && s.ok && domAt act dflt d 1 t
+    let cfg : SplitCfg := { op := s.op, pre := s.pre, post := s.post, rel := s.rel, act := act }
+    -- the tree is the model's `splitAt`; the active ranges are read off the same per-fiber splits
+    let model := match splitAt cfg dflt d 1 t, obsAt act d (modelF s act dflt d) 1 t with
+      | some r, some o => some { o with tree := treeToJson (d + 2 + 1) r }
+      | _, _ => none
+    finish pre model (obsAt act d (specF s act dflt d) 1 t) true
+      (["depth1", opTag s.op] ++ (if presentedAt dflt d 1 t > 0 then ["some-presented"] else []) ++
+        (if model.isNone then ["crash-op:" ++ opTag s.op] else []))
+  | 2 =>
+    let t ← fTree j "t" (d + 3)
+    let s ← parseSplit j shape 0
+    let pre := wfB (d + 3) t && s.ok && domAt act dflt d 2 t
+    let cfg : SplitCfg := { op := s.op, pre := s.pre, post := s.post, rel := s.rel, act := act }
+    -- the tree is the model's `splitAt`; the active ranges are read off the same per-fiber splits
+    let model := match splitAt cfg dflt d 2 t, obsAt act d (modelF s act dflt d) 2 t with
+      | some r, some o => some { o with tree := treeToJson (d + 2 + 2) r }
+      | _, _ => none
+    finish pre model (obsAt act d (specF s act dflt d) 2 t) true
+      (["depth2", opTag s.op] ++ (if presentedAt dflt d 2 t > 0 then ["some-presented"] else []) ++
+        (if model.isNone then ["crash-op:" ++ opTag s.op] else []))
+  | _ => throw "C08: split depth > 2 not supported by the driver"
 
 end FtDriver
